@@ -351,7 +351,12 @@ fn workspace_part(report: &mut Report, batch: &mut Batch, rng: &mut Rng, n: usiz
 fn multi_package_part(report: &mut Report, rng: &mut Rng, n: usize) {
   for i in 0..n {
     let mut pr = rng.fork();
-    let mw = crate::c09::gen_multi(&mut pr, i, i % 2 == 0);
+    let mut mw = crate::c09::gen_multi(&mut pr, i, i % 2 == 0);
+    // now and then the package the others depend on has a slow type somewhere
+    if i % 3 == 2 {
+      let last = mw.pkgs.len() - 1;
+      inject_bad(&mut pr, &mut mw.pkgs[last]);
+    }
     let w0 = mw.world();
     let replay = json!({"multi_package_world": w0.describe()});
     report.evaluations += 1;
@@ -368,8 +373,27 @@ fn multi_package_part(report: &mut Report, rng: &mut Rng, n: usize) {
     }
     let r2 = run_fast_check(&w0, Some(&cache), false);
     statement(report, &w0, &r0, &r2, true, "several packages, warm run", &replay);
-    // edits: each referring package in turn loses its references to the other packages
+    // edits that keep the references: one package's sources change without its declarations changing
     let mut cur = mw;
+    for a in 0..cur.pkgs.len() {
+      if !cur.cross.iter().any(|c| c.0 == a) && a + 1 != cur.pkgs.len() {
+        continue;
+      }
+      let next = cur.touched(a, a + 1);
+      let w1 = next.world();
+      let replay1 = json!({"before": replay, "edit": format!("the sources of package {} change, its declarations do not", next.pkgs[a].name), "after": w1.describe()});
+      let r3n = run_fast_check(&w1, None, false);
+      if !r3n.graph_errors.is_empty() {
+        break;
+      }
+      let r3 = run_fast_check(&w1, Some(&cache), false);
+      statement(report, &w1, &r3n, &r3, false, &format!("several packages, cached run after the sources of package {} changed", next.pkgs[a].name), &replay1);
+      let r4 = run_fast_check(&w1, Some(&cache), false);
+      statement(report, &w1, &r3n, &r4, true, "several packages, second cached run after the source change", &replay1);
+      report.count("multi-package-history:source-change-keeping-references");
+      cur = next;
+    }
+    // edits: each referring package in turn loses its references to the other packages
     for a in 0..cur.pkgs.len() {
       if !cur.cross.iter().any(|c| c.0 == a) {
         continue;
